@@ -259,11 +259,10 @@ class PerCpuArrayObj(ArrayMapObj):
             raise oserror(errno.E2BIG)
         if flags == BPF_NOEXIST:
             raise oserror(errno.EEXIST)
-        # only value_size bytes of each 8-aligned slot are copied in
-        for cpu in range(self.ncpus):
-            src = cpu * self.elem_size
-            self.region(index, cpu).data[:] = \
-                value[src:src + self.value_size]
+        # copy_map_value_long: the complete 8 byte aligned slot of every CPU
+        # is copied, padding included (checked against the real kernel)
+        start = index * self.ncpus * self.elem_size
+        self._view[start:start + self.user_value_size] = value
 
 
 class HashEntry:
@@ -768,8 +767,14 @@ class SimKernel:
     def new_instance(self, prog, packet, cpu=0, ctx=None, trace=None):
         """start `prog` on `cpu`; the caller steps the returned Instance
 
+        When the program exits the instance's private memory is released by
+        itself.  An instance that is abandoned (fault, simulated crash) must be
+        handed to :meth:`discard`, otherwise retired hash values are kept
+        addressable forever.
+
         :param packet: bytearray used in place, or None
-        :param ctx: ``(ingress_ifindex, rx_queue_index, egress_ifindex)``
+        :param ctx: ``(ingress_ifindex, rx_queue_index, egress_ifindex)`` or a
+           dict with these names
         """
         if not isinstance(prog, Prog):
             raise TypeError("prog must be a loaded program")
@@ -777,10 +782,17 @@ class SimKernel:
             raise ValueError(f"no such CPU #{cpu}")
         if prog.prog_type != PROG_TYPE_XDP:
             raise ValueError("only the context of XDP programs is modelled")
+        if packet is not None and not isinstance(packet, bytearray):
+            raise TypeError("packet must be a bytearray (it is used in place)")
         self._reap()
+        if ctx is None:
+            ctx = (0, 0, 0)
+        elif isinstance(ctx, dict):
+            ctx = (ctx.get("ingress_ifindex", 0), ctx.get("rx_queue_index", 0),
+                   ctx.get("egress_ifindex", 0))
         inst = Instance(
             prog, self.space, self, cpu=cpu, packet=packet,
-            ctx=(0, 0, 0) if ctx is None else tuple(ctx), trace=trace,
+            ctx=tuple(ctx), trace=trace,
             strict_alignment=self.strict_alignment or prog.strict_alignment)
         inst.on_done = self.discard
         self._live[id(inst)] = inst
